@@ -29,12 +29,15 @@ TRUSTED = ['Lean 4.33.0 kernel; axioms ⊆ {propext, Classical.choice, Quot.soun
            'harness/c15.py generators + canonicalisation; hex line protocol',
            'parameter: str.isprintable on non-ASCII characters (instantiated with the real predicate)',
            'parameter: textwrap.TextWrapper._split_chunks (NormalizedString line wrapping) instantiated with the real function']
-RULE = ('seeded streams: (codec) strings rich in quotes/backslashes/blanks/": "/"#"/non-ASCII/controls through encoder, decoder, repr, '
-        'literal evaluation; (value) accepted values of every modelled class through setValue, __str__, serialize, the real '
-        'registry.close file, open_registry and a fresh registration; (text) arbitrary texts through set() incl. rejected ones; '
-        '(file) hand-built hostile files through open_registry; (name) name lists through escape/join/split; (tree) histories of '
-        'set/setValue/reset/get/save+load on global, network and channel level; (oracle-only) classes outside the model. '
-        'A case is non-trivial when it carries at least one model-branch tag; distinct = distinct input.')
+RULE = ('corpus of past failures / finding witnesses first, then seeded streams: (codec) strings rich in quotes/backslashes/blanks/": "/"#"/'
+        'non-ASCII/controls through encoder, decoder, repr, literal evaluation, and the blank-character table; (value) accepted values of '
+        'every modelled class through setValue, __str__, serialize (incl. NormalizedString wrapping), the real registry.close file, '
+        'open_registry and a fresh registration; (text) arbitrary texts through set() incl. rejected ones; (file) hand-built hostile files '
+        'through open_registry; (close) whole files with random defaults/help texts; (name) name lists through escape/join/split, '
+        'isChannel, isValidRegistryName; (tree) histories of set/setValue/reset/get/save+load(+save again) on global, network and '
+        'channel level against a real tree; (live) the same through the commands of the real Config plugin on a live bot; (oracle-only) '
+        'classes outside the model. A case is non-trivial when it carries at least one model-branch tag; distinct = distinct input; '
+        'a history counts as one case.')
 
 # ------------------------------------------------------------------------------------------
 # alphabets
